@@ -72,8 +72,20 @@ def run_impl(lines, release=False, binary="impl_run", env=None, shards=JOBS):
     n = max(1, min(shards, (len(lines) + 39) // 40))
     chunks = [lines[i::n] for i in range(n)]
 
+    def single(l, t=30):
+        try:
+            rr = subprocess.run([exe], input=l + "\n", capture_output=True, text=True, env=env or ENV, timeout=t)
+        except subprocess.TimeoutExpired:
+            return {"timeout": t}
+        o = rr.stdout.splitlines()
+        return json.loads(o[0]) if o else {"crash": rr.returncode, "stderr": rr.stderr[-500:]}
+
     def one(chunk):
-        r = subprocess.run([exe], input="\n".join(chunk) + "\n", capture_output=True, text=True, env=env or ENV)
+        try:
+            r = subprocess.run([exe], input="\n".join(chunk) + "\n", capture_output=True, text=True, env=env or ENV, timeout=240)
+        except subprocess.TimeoutExpired:
+            # something in this chunk does not come back: run the lines one by one under a time limit
+            return [single(l) for l in chunk]
         out = r.stdout.splitlines()
         if len(out) != len(chunk):
             # the process died (abort / stack overflow): find the line that killed it
